@@ -7,6 +7,7 @@ import Tranp.Lemmas.LadderT
 import Tranp.Model.Classify
 import Tranp.Generated.GrammarLadder
 import Tranp.Generated.ResolverTable
+import Tranp.Generated.GrammarParents
 
 namespace Tranp.C02
 open Tranp Tranp.Prec Tranp.Ladder Tranp.Classify
@@ -246,6 +247,8 @@ inductive NamePos where
   | annTarget               -- `x: T = …`, `x: T`             anno_assign . assign_namelist . var
   | classVarTarget (anno : Bool)   -- `x: ClassVar[T] = …` / `x: ClassVar = …`
   | augTarget               -- `x += …`                        aug_assign . assign_namelist . var
+  | typeAliasTarget         -- `A: TypeAlias = T`              class_assign . assign_namelist . var
+  | typeVarTarget           -- `T = TypeVar('T')`              template_assign . assign_namelist . var
   | forTarget               -- `for x in …`                    for_stmt . for_namelist . name
   | compTarget              -- `[… for x in …]`                comp_for . for_namelist . name
   | withAs                  -- `with … as x`                   with_item . name
@@ -267,6 +270,8 @@ def NamePos.suffix : NamePos → List Str
   | .classVarTarget true => [c!"class_var_anno_assign", c!"assign_namelist", c!"var"]
   | .classVarTarget false => [c!"class_var_assign", c!"assign_namelist", c!"var"]
   | .augTarget => [c!"aug_assign", c!"assign_namelist", c!"var"]
+  | .typeAliasTarget => [c!"class_assign", c!"assign_namelist", c!"var"]
+  | .typeVarTarget => [c!"template_assign", c!"assign_namelist", c!"var"]
   | .forTarget => [c!"for_stmt", c!"for_namelist", c!"name"]
   | .compTarget => [c!"comp_for", c!"for_namelist", c!"name"]
   | .withAs => [c!"with_item", c!"name"]
@@ -288,6 +293,8 @@ def NamePos.pyRole : NamePos → Role
   | .annTarget => .decl
   | .classVarTarget _ => .classVar
   | .augTarget => .ref
+  | .typeAliasTarget => .decl
+  | .typeVarTarget => .decl
   | .forTarget => .decl
   | .compTarget => .decl
   | .withAs => .decl
@@ -469,5 +476,201 @@ def okOrders : List (List FuncClass) := [
 /-- the registered order of `function_def` read from the generated resolver table -/
 def generatedFuncOrderOk : Bool :=
   okOrders.any fun o => (rowOf c!"function_def").map (fun r => r.map (·.1)) == some (o.map FuncClass.name)
+
+/-! ## registration order of the other multi-candidate tags -/
+
+theorem find_first_of_precedes {α : Type} [DecidableEq α] (p : α → Bool) :
+    ∀ (order : List α) (c : α), c ∈ order → p c = true →
+      (∀ c' ∈ order, p c' = true → c' ≠ c → order.idxOf c < order.idxOf c') → order.find? p = some c := by
+  intro order
+  induction order with
+  | nil => intro c hc; cases hc
+  | cons x xs ih =>
+    intro c hc hp hprec
+    by_cases hx : x = c
+    · subst hx; simp [List.find?_cons, hp]
+    · have hpx : p x = false := by
+        cases hpx : p x with
+        | false => rfl
+        | true =>
+          have := hprec x (by simp) hpx hx
+          simp [List.idxOf_cons, hx] at this
+      have hcx : c ∈ xs := by
+        rcases List.mem_cons.mp hc with h | h
+        · exact absurd h.symm hx
+        · exact h
+      simp only [List.find?_cons, hpx]
+      apply ih c hcx hp
+      intro c' hc' hp' hne
+      have := hprec c' (List.mem_cons_of_mem _ hc') hp' hne
+      have hc'x : ¬ x = c' := by rintro rfl; rw [hpx] at hp'; cases hp'
+      have e1 : (x == c) = false := by simpa using hx
+      have e2 : (x == c') = false := by simpa using hc'x
+      simp only [List.idxOf_cons, e1, e2, cond_false] at this
+      omega
+
+theorem find_none_of_all_false {α : Type} (p : α → Bool) (order : List α) (h : ∀ c ∈ order, p c = false) :
+    order.find? p = none := by
+  rw [List.find?_eq_none]; intro c hc; simp [h c hc]
+
+theorem fromEnd_dropLast (xs : List Str) (k : Nat) (hk : 1 ≤ k) : fromEnd xs.dropLast k = fromEnd xs (k + 1) := by
+  obtain ⟨r, rfl⟩ : ∃ r, xs = r.reverse := ⟨xs.reverse, by simp⟩
+  obtain ⟨j, rfl⟩ : ∃ j, k = j + 1 := ⟨k - 1, by omega⟩
+  rw [List.dropLast_reverse, fromEnd_reverse, fromEnd_reverse]
+  cases r <;> simp
+
+/-- `match_feature` of the candidates of tag `name` (the fallback `Var` accepts everything) -/
+def acceptsName : NameClass → NameFeat → Bool
+  | .argumentLabel, f => isArgumentLabel f
+  | .declClassParam, f => isParamClass f
+  | .declThisParam, f => isParamThis f
+  | .declParam, f => isParam f
+  | .declLocalVar, f => isDeclLocalVar f
+  | .typesName, f => inDeclClassType f
+  | .importName, f => inDeclImport f
+  | .var, _ => true
+  | _, _ => false
+
+def nameCandidates : List NameClass :=
+  [.argumentLabel, .declClassParam, .declThisParam, .declParam, .declLocalVar, .typesName, .importName]
+
+def firstOfName (order : List NameClass) (f : NameFeat) : NameClass := (order.find? fun c => acceptsName c f).getD .var
+
+/-- `match_feature` of the candidates of tag `var` -/
+def acceptsVar : NameClass → NameFeat → Bool
+  | .declClassVar, f => isDeclClassVar f
+  | .declThisVarForward, f => isDeclThisVarForward f
+  | .declLocalVar, f => isDeclLocalVar f
+  | .altTypesName, f => inDeclAltClassType f
+  | .classRef, f => f.tokens == c!"cls"
+  | .thisRef, f => f.tokens == c!"self"
+  | .var, _ => true
+  | _, _ => false
+
+def varCandidates : List NameClass := [.declClassVar, .declThisVarForward, .declLocalVar, .altTypesName, .classRef, .thisRef]
+
+def firstOfVar (order : List NameClass) (f : NameFeat) : NameClass := (order.find? fun c => acceptsVar c f).getD .var
+
+/-- the pairs of `var` candidates that can accept the same node, in their registered order -/
+def varBefore : List (NameClass × NameClass) :=
+  [(.declThisVarForward, .declLocalVar), (.declClassVar, .classRef), (.declClassVar, .thisRef),
+   (.declThisVarForward, .classRef), (.declThisVarForward, .thisRef), (.altTypesName, .classRef), (.altTypesName, .thisRef)]
+
+/-- what `is_decl_local_var` says about the parent tag -/
+theorem local_parent (f : NameFeat) (h : isDeclLocalVar f = true) :
+    f.parentTag = some c!"for_namelist" ∨ f.parentTag = some c!"except_clause" ∨ f.parentTag = some c!"with_item"
+      ∨ f.parentTag = some c!"lambdaparams" ∨ f.parentTag = some c!"assign_namelist" := by
+  obtain ⟨f1, f2, _, _, _, _, _, f8, _⟩ := matcherFacts
+  unfold isDeclLocalVar at h
+  simp only [f8, f1, f2, List.any_cons, List.any_nil, Bool.or_false] at h
+  split at h
+  · next hb =>
+    simp only [Bool.and_eq_true, Bool.or_eq_true, beq_iff_eq] at hb
+    rcases hb.1 with h' | h' | h' | h'
+    · exact Or.inl h'
+    · exact Or.inr (Or.inl h')
+    · exact Or.inr (Or.inr (Or.inl h'))
+    · exact Or.inr (Or.inr (Or.inr (Or.inl h')))
+  · simp only [Bool.and_eq_true, Bool.or_eq_true, endsWith2, beq_iff_eq] at h
+    have : fromEnd f.tags.dropLast 1 = some c!"assign_namelist" := by
+      rcases h.1.1 with h' | h' <;> exact h'.2
+    rw [fromEnd_dropLast _ _ (by omega)] at this
+    exact Or.inr (Or.inr (Or.inr (Or.inr this)))
+
+/-! ### what each `var` candidate says about the statement tag three levels up -/
+
+theorem classVar_third (f : NameFeat) (h : isDeclClassVar f = true) :
+    fromEnd f.tags 3 = some c!"class_var_assign" ∨ fromEnd f.tags 3 = some c!"class_var_anno_assign" := by
+  have f7 := matcherFacts.2.2.2.2.2.2.1
+  unfold isDeclClassVar at h
+  simp only [f7, List.any_cons, List.any_nil, Bool.or_false, Bool.or_eq_true, endsWith2, Bool.and_eq_true, beq_iff_eq] at h
+  rcases h with h | h
+  · left; rw [← fromEnd_dropLast _ _ (by omega)]; exact h.1
+  · right; rw [← fromEnd_dropLast _ _ (by omega)]; exact h.1
+
+theorem forward_third (f : NameFeat) (h : isDeclThisVarForward f = true) : fromEnd f.tags 3 = some c!"anno_assign" := by
+  have f3 := matcherFacts.2.2.1
+  unfold isDeclThisVarForward at h
+  split at h
+  · cases h
+  · split at h
+    · cases h
+    · simp only [Bool.and_eq_true, beq_iff_eq, f3] at h
+      exact h.1.1.1.1
+
+theorem local_third (f : NameFeat) (hv : f.lastTag = some c!"var") (h : isDeclLocalVar f = true) :
+    (fromEnd f.tags 3 = some c!"assign" ∨ fromEnd f.tags 3 = some c!"anno_assign") ∧ isClassOrThis f.tokens = false := by
+  obtain ⟨f1, f2, _, _, _, _, _, _, f9, _⟩ := matcherFacts
+  unfold isDeclLocalVar at h
+  have hne : (f.lastTag == some Generated.DeclMatchers.nameTag) = false := by rw [hv, f9]; decide
+  simp only [hne, Bool.and_false, Bool.false_eq_true, if_false, f1, f2, List.any_cons, List.any_nil, Bool.or_false, Bool.and_eq_true,
+    Bool.or_eq_true, endsWith2, beq_iff_eq, Bool.not_eq_true'] at h
+  refine ⟨?_, h.1.2⟩
+  rcases h.1.1 with h' | h'
+  · left; rw [← fromEnd_dropLast _ _ (by omega)]; exact h'.1
+  · right; rw [← fromEnd_dropLast _ _ (by omega)]; exact h'.1
+
+theorem alt_third (f : NameFeat) (h : inDeclAltClassType f = true) :
+    fromEnd f.tags 3 = some c!"class_assign" ∨ fromEnd f.tags 3 = some c!"template_assign" ∨ fromEnd f.tags 3 = none := by
+  have f6 := matcherFacts.2.2.2.2.2.1
+  by_cases hl : 3 ≤ f.tags.length
+  · unfold inDeclAltClassType at h
+    split at h
+    · cases h
+    · simp only [f6, List.any_cons, List.any_nil, Bool.or_false, Bool.or_eq_true, beq_iff_eq] at h
+      rcases h with h | h
+      · exact Or.inl (lastIndexOf_eq_fromEnd _ _ 3 (by omega) hl (by simpa using h))
+      · exact Or.inr (Or.inl (lastIndexOf_eq_fromEnd _ _ 3 (by omega) hl (by simpa using h)))
+  · right; right
+    unfold fromEnd
+    simp; omega
+
+/-- the last occurrence of `a` in `ctx ++ [a, b, c]` is the third element from the end -/
+theorem lastIndexOf_third (ctx : List Str) (a b c : Str) (hb : b ≠ a) (hc : c ≠ a) :
+    lastIndexOf (ctx ++ [a, b, c]) a = ((ctx ++ [a, b, c]).length : Int) - 3 := by
+  unfold lastIndexOf
+  have h : (ctx ++ [a, b, c]).reverse.findIdx? (· == a) = some 2 := by
+    simp [List.findIdx?_cons, hb, hc]
+  rw [h]
+  simp
+
+/-- `in_decl_alt_class_type` accepts a target of the grammar's two alternative assignment statements -/
+theorem alt3 (ctx : List Str) (a toks : Str) (recv : Bool) (ha : a ∈ Generated.DeclMatchers.altAssigns) :
+    inDeclAltClassType ⟨ctx ++ [a, c!"assign_namelist", c!"var"], toks, recv⟩ = true := by
+  have f5 := matcherFacts.2.2.2.2.1
+  have f6 := matcherFacts.2.2.2.2.2.1
+  have hne : a ≠ c!"assign_namelist" ∧ a ≠ c!"var" := by
+    rw [f6] at ha
+    simp at ha
+    rcases ha with rfl | rfl <;> decide
+  unfold inDeclAltClassType
+  have hp : (NameFeat.mk (ctx ++ [a, c!"assign_namelist", c!"var"]) toks recv).parentTag = some c!"assign_namelist" := fe3_2 ctx _ _ _
+  simp only [hp, f5, bne_self_eq_false, Bool.false_eq_true, if_false, List.any_eq_true, beq_iff_eq]
+  exact ⟨a, ha, lastIndexOf_third ctx a _ _ (Ne.symm hne.1) (Ne.symm hne.2)⟩
+
+/-! ## the grammar's parent / child relation between tree tags (generated from lark's compiled rules) -/
+
+def inGrammar (p ch : Str) : Bool := Generated.GrammarParents.rel.contains (p, ch)
+
+def parentsOf (ch : Str) : List Str := (Generated.GrammarParents.rel.filter (·.2 == ch)).map (·.1)
+
+def pathInGrammar : List Str → Bool
+  | a :: b :: rest => inGrammar a b && pathInGrammar (b :: rest)
+  | _ => true
+
+/-- the positions with a fixed path suffix -/
+def fixedPositions : List NamePos :=
+  [.assignTarget, .annTarget, .classVarTarget true, .classVarTarget false, .augTarget, .typeAliasTarget, .typeVarTarget, .forTarget,
+   .compTarget, .withAs, .exceptAs, .lambdaParam, .param, .defName, .className, .importedName, .kwLabel, .attrName]
+
+/-- parents of a `name` node that bind nothing and label nothing: the `var` node itself (classified one level up), import paths,
+    type expressions, `raise … from name` -/
+def otherNameParents : List Str := [c!"dotted_name", c!"raise_stmt", c!"typed_getattr", c!"typed_var", c!"var"]
+
+theorem mem_parentsOf {p ch : Str} (h : inGrammar p ch = true) : p ∈ parentsOf ch := by
+  unfold inGrammar at h
+  unfold parentsOf
+  have hm : (p, ch) ∈ Generated.GrammarParents.rel := by simpa using h
+  exact List.mem_map.mpr ⟨(p, ch), List.mem_filter.mpr ⟨hm, by simp⟩, rfl⟩
 
 end Tranp.C02
